@@ -21,12 +21,13 @@ const Root = "/verif"
 
 // Run is one invocation of one check.
 type Run struct {
-	ID     string
-	Tier   string
-	Seed   int
-	Level  string
-	Replay string // non-empty: replay this artefact instead of exploring
-	start  time.Time
+	ID             string
+	Tier           string
+	Seed           int
+	Level          string
+	Replay         string // non-empty: replay this artefact instead of exploring
+	explicitBudget bool
+	start          time.Time
 
 	mu          sync.Mutex
 	Cov         map[string]interface{}
@@ -80,8 +81,22 @@ func Start(id, level string) *Run {
 		}
 	}
 	r.deadline = r.start.Add(d)
+	r.explicitBudget = *budget != 0
 	r.loadKnown()
 	return r
+}
+
+// DefaultBudget replaces the tier's default internal deadline (4 / 40 minutes) for a check that
+// needs more; an explicit --budget still wins.
+func (r *Run) DefaultBudget(quick, thorough time.Duration) {
+	if r.explicitBudget {
+		return
+	}
+	if r.Tier == "quick" {
+		r.deadline = r.start.Add(quick)
+	} else {
+		r.deadline = r.start.Add(thorough)
+	}
 }
 
 func envOr(k, d string) string {
